@@ -82,6 +82,16 @@ def random_script(rng, maxlen):
     return line(ops)
 
 
+def build_harness(tier):
+    from checks import gencommon as G
+    return G.build(tier)
+
+
+def run_impl(lines):
+    from checks import gencommon as G
+    return G.run_impl(lines)
+
+
 def gen_cases(rng, tier):
     if tier == "quick":
         ex, nrand, maxlen = 4, 2000, 40
@@ -100,7 +110,12 @@ def gen_cases(rng, tier):
         body = random_script(r2, 25 if tier == "quick" else 60).split("|", 1)[1].strip()
         cases.append("119 %d | %s" % (r2.choice([2, 3, 4, 8]), body))
     d["threaded_histories"] = nthr
-    return cases, d
+    # the library's own Future/Stream/Sink objects polled through opaque objects by a caller whose waker counts wakes, clones and releases; the
+    # implementor wakes through the borrowed waker, through clones and clones of clones ('105 <container> | polls', harness/prog/src/ext.rs)
+    from checks import gencommon as G
+    x, dx = G.ext_cases(rng.fork("ext"), tier)
+    d.update(dx)
+    return cases + x, d
 
 
 def _sim(ops):
@@ -123,6 +138,8 @@ def model_line(l):
     """'119 T | H': the model is run on ONE linearisation — H, then for every thread: a clone of every retained waker, the thread's part of the
     script (the clone/wake/wake_by_ref/drop operations of H, slot numbers translated to the thread's copies) and the release of what it still holds;
     wake counts and clone counts are sums, so the final observation is the same for every interleaving"""
+    if l.startswith("105 "):
+        return "0 |"
     if not l.startswith("119 "):
         return l
     hdr, body = l.split("|", 1)
@@ -155,6 +172,8 @@ def model_line(l):
 
 
 def compare(l, impl_rows, model_rows):
+    if l.startswith("105 "):
+        return True          # decided by the implementation-side monitor (direct vs opaque: results, wakes per poll, clones released)
     if not l.startswith("119 "):
         return impl_rows == model_rows
     return impl_rows.strip() == model_rows.split(";")[-1].strip()
